@@ -106,6 +106,9 @@ class World:
         if kind == 'string':
             if self.replay:
                 text = B.doc_text(B.raw(builder))
+                if getattr(self, 'decl', None) and not text.startswith('<?xml'):
+                    # a str keeps the declaration of the file it was read from (the text itself is already decoded)
+                    text = '<?xml version="1.0" encoding="%s"?>\n' % self.decl + text
                 B.Ctx.docs.append(text)
                 return text
             h = 'doc%d' % self.n
@@ -257,7 +260,7 @@ def call(fn, exc_mod):
 def ro_builder(ids, mid, ro_id='RO', lead=2, completed=False):
     def build():
         stories = [B.story(s, slug='ss', timing=B.timing_block(dur='10'), body=[B.item('I0'), T('p', 'x')]) for s in ids]
-        root = B.ro_tree(stories, lead=lead, msg_id=mid, ro_id=ro_id)
+        root = B.ro_tree(stories, lead=lead, msg_id=mid, ro_id=ro_id, ro_slug='sl\u00fcg \u20ac')
         if completed:       # a merged, completed running order used again as the roCreate of a collection
             root.append(E('mosromgrmeta', E('roDelete', T('roID', ro_id))))
         return root
@@ -327,12 +330,15 @@ def collection_cell(P, A):
     sig = None
     with World(opt=P.get('opt', False)) as W:
         mt, mc_mod, exc = W.mt, W.mc, W.exc
+        W.decl = P.get('decl')
         handles = [W.doc(ro_builder(ids, rc_mid, completed=bool(P.get('rc_completed'))), kind=src)]
         ncs = P.get('ncs_ids')
         for j, kind in enumerate(kinds):
             fails = A.get('f%d' % j, False) if P.get('may_fail', True) else False
             refs = P.get('refs') or [0, 1, 2, 0]
-            ref = x if fails else ids[refs[j % len(refs)] % N]
+            r_ = refs[j % len(refs)]
+            # 'n<i>': the story that message i brings in (which may be numbered later: then this message fails)
+            ref = x if fails else (A[r_] if isinstance(r_, str) else ids[r_ % N])
             b = msg_builder(kind, ref, mids[j], new_id=A.get('n%d' % j))
             if ncs:
                 b = _with_ncs(b, ncs[j])
@@ -719,6 +725,9 @@ def sources_cell(P, A):
             # a str cannot carry a conflicting encoding declaration; only self-consistent texts
             body = text.split('?>\n', 1)[1] if text.startswith('<?xml') else text
             res['str'] = B.call(lambda: mt.MosFile.from_string(body))
+        if text.startswith('<?xml'):
+            # a str that still carries its declaration (whatever encoding it names: a str is already decoded)
+            res['str-with-declaration'] = B.call(lambda: mt.MosFile.from_string(text))
         with World(parser_stub=False) as W:
             W.objects['key'] = data
             res['s3'] = B.call(lambda: mt.MosFile.from_s3('bucket', 'key'))
@@ -736,9 +745,18 @@ def sources_cell(P, A):
         with World(parser_stub=False) as W2:
             W2.objects['key'] = data
             rd['reader-s3'] = B.call(lambda: mcm.MosReader.from_s3('bucket', 'key'))
+        rd['reader-str'] = B.call(lambda: mcm.MosReader.from_string(text))
+        if not rd['reader-str'].raised and rd['reader-str'].result is not None:
+            # what a reader restores is the document it was given
+            back = B.call(lambda: str(rd['reader-str'].result.mos_object))
+            direct = B.call(lambda: str(mt.MosFile.from_string(text)))
+            if back.raised or direct.raised or back.result != direct.result:
+                sig = 'reader-str-restores-a-different-document'
         ref = res['bytes']
         unsupported = name in ('heartbeat', 'roReq')
         for k, o in rd.items():
+            if sig is not None:
+                break
             if ref.raised:
                 if not o.raised or type(o.exc) is not type(ref.exc):
                     sig = '%s-does-not-refuse-like-MosFile' % k
@@ -779,18 +797,19 @@ def sources_cell(P, A):
 FILE_KINDS = ['roCreate', 'roCreate-completed', 'roStoryMove', 'roDelete', 'roStorySend', 'roElementAction',
               'roReplace', 'roMetadataReplace', 'unknown-xml', 'malformed', 'missing', 'directory',
               'latin1-roStoryDelete', 'binary-junk', 'roStoryMove-to-bottom', 'roElementAction-no-operation',
-              'roElementAction-odd-shape', 'roStoryAppend-no-message-id', 'roCreate-text-message-id']
+              'roElementAction-odd-shape', 'roStoryAppend-no-message-id', 'roCreate-text-message-id', 'roCreate-blank-timing']
 LATIN1_DOC = ('<?xml version="1.0" encoding="ISO-8859-1"?>\n<mos><messageID>%s</messageID><roStoryDelete>'
               '<roID>RO</roID><storyID>caf\u00e9</storyID></roStoryDelete></mos>')
 VALID_CLASS = {'roStoryAppend-no-message-id': 'StoryAppend', 'roCreate-text-message-id': 'RunningOrder',
+               'roCreate-blank-timing': 'RunningOrder',
                'latin1-roStoryDelete': 'StoryDelete', 'roStoryMove-to-bottom': 'StoryMove','roCreate': 'RunningOrder', 'roCreate-completed': 'RunningOrder (completed)', 'roStoryMove': 'StoryMove',
                'roDelete': 'RunningOrderEnd', 'roStorySend': 'StorySend', 'roElementAction': 'EAStorySwap',
                'roReplace': 'RunningOrderReplace', 'roMetadataReplace': 'MetaDataReplace'}
 
 
-def file_of_kind(W, kind, i, mid=None):
+def file_of_kind(W, kind, i, mid=None, name=None):
     mid = mid or str(10 + i)
-    name = 'f%d_%s.mos.xml' % (i, kind)
+    name = name or 'f%d_%s.mos.xml' % (i, kind)
     if kind in ('unknown-xml', 'malformed', 'missing', 'directory'):
         return W.bad_file(kind, name=name)
     if kind in ('latin1-roStoryDelete', 'binary-junk'):
@@ -820,6 +839,13 @@ def file_of_kind(W, kind, i, mid=None):
             root = msg_builder('roStoryAppend', 'a', mid, new_id='n')()
             root.remove(root.find('messageID'))
             return root
+    elif kind == 'roCreate-blank-timing':
+        # timing tags that are present but blank, a blank roEdStart, a story without any metadata: still a roCreate
+        def b():
+            blank = E('mosExternalMetadata', T('mosSchema', 's'), E('mosPayload', T('StoryDuration', None), T('TextTime', None),
+                                                                  T('StoryStarted', None), T('StoryEnded', None)))
+            return B.ro_tree([B.story('a', slug=None), B.story('b', slug='s', timing=B.timing_block(dur='5')),
+                              B.story('c', slug='s', timing=blank)], lead=3, msg_id=mid, edstart=None)
     elif kind == 'roCreate-text-message-id':
         b = ro_builder(['a', 'b'], 'n/a')      # ... or carry one that is not a number
     elif kind == 'roCreate-completed':
@@ -832,7 +858,7 @@ def file_of_kind(W, kind, i, mid=None):
     elif kind == 'roReplace':
         b = lambda: B.raw(lambda: M.ro_replace([T('roSlug', 'new'), T('roEdStart', None), B.story('n', slug='s')], msg_id=mid))
     else:
-        b = msg_builder(kind, 'a', mid, new_id='n')
+        b = msg_builder(kind, 'a', mid, new_id='n%d' % i)
     return W.doc(b, kind='file', name=name)
 
 
@@ -946,6 +972,9 @@ SCENARIOS = {
     'non-ascii-content': ['roCreate', 'roStoryAppend-nonascii', 'roDelete'],
     'bad-message-id': ['roCreate', 'roStoryMove@abc', 'roDelete'],
     'blank-message-id': ['roCreate', 'roStoryMove@', 'roDelete'],
+    # two messages that share a message ID are merged in the order listed, whatever their file names
+    'same-id-listed-against-name-order': ['roCreate#m', 'roStoryAppend@20#zz', 'roStoryAppend@20#aa', 'roDelete#n'],
+    'listed-against-name-order': ['roStorySend@20#b', 'roDelete@30#a', 'roCreate@5#c'],
 }
 
 
@@ -1059,7 +1088,11 @@ def cli_merge_cell(P, A):
             if spec.startswith('='):
                 paths.append(paths[int(spec[1:])])      # the very same path listed again
                 continue
+            spec, _, fname = spec.partition('#')          # '#name': file name (listed order need not be name order)
             kind, at, mid = spec.partition('@')
+            if fname:
+                paths.append(file_of_kind(W, kind, i, mid=mid or None, name=fname + '.mos.xml'))
+                continue
             if at and not mid.isdigit():
                 # a classifiable message whose messageID is not a number: the library fails with a built-in
                 # exception; the command line must still report an error and exit 2
